@@ -6,8 +6,11 @@ import (
 	"os/exec"
 	"path/filepath"
 	"regexp"
+	"runtime"
 	"sort"
 	"strings"
+	"sync"
+	"time"
 )
 
 // RaceReport is one data-race report of the free-running -race pass.
@@ -118,4 +121,21 @@ func RunRace(args ...string) ([]RaceReport, int, error) {
 		}
 	}
 	return reps, runs, nil
+}
+
+// WaitOrBlocked is used by the free-running race bodies: it waits for the scenario's goroutines; a deadlock in the
+// code under test must not hang the pass. A scenario body takes milliseconds, so one that has not finished after a
+// minute of real time is reported (RACE-INVARIANT line, picked up as a violation) and the pass ends.
+func WaitOrBlocked(wg *sync.WaitGroup, scenario string, runs int) {
+	done := make(chan struct{})
+	go func() { wg.Wait(); close(done) }()
+	select {
+	case <-done:
+	case <-time.After(60 * time.Second):
+		buf := make([]byte, 1<<15)
+		n := runtime.Stack(buf, true)
+		fmt.Printf("RACE-INVARIANT deadlock:%s\tthe scenario's goroutines were still blocked after 60 s of real time; stacks: %s\n", scenario, strings.ReplaceAll(string(buf[:n]), "\n", " | "))
+		fmt.Printf("RACE-RUNS %d\n", runs)
+		os.Exit(0)
+	}
 }
